@@ -279,6 +279,31 @@ fn tvfs(out: &mut Vec<(String, Vec<u8>)>) {
     push(out, "tvfs-ckey-3files", tvfs_bytes(TVFS_FLAG_INCLUDE_CKEY));
     push(out, "tvfs-ckey-est-patch-3files", tvfs_bytes(TVFS_FLAG_INCLUDE_CKEY | TVFS_FLAG_ENCODING_SPEC | TVFS_FLAG_PATCH_SUPPORT));
     push(out, "tvfs-bare-3files", tvfs_bytes(0));
+    push(out, "tvfs-path-table-200000-levels", tvfs_deep_path_table(200_000));
+}
+
+/// A builder-made TVFS whose path table is replaced by `depth` nested folder nodes with empty
+/// names around one file node (5 bytes per level). The repository's own `build` writes the
+/// raw path table back and computes the header from it.
+pub fn tvfs_deep_path_table(depth: usize) -> Result<Vec<u8>, String> {
+    let base = tvfs_bytes(0)?;
+    let mut f = cascette_formats::tvfs::TvfsFile::parse(&base).map_err(e2s)?;
+    // innermost: file node "a" -> VFS offset 0
+    let mut table: Vec<u8> = vec![0x01, b'a', 0xFF, 0, 0, 0, 0];
+    let mut levels: Vec<u32> = Vec::with_capacity(depth);
+    let mut children = table.len() as u32;
+    for _ in 0..depth {
+        levels.push(children + 4);
+        children += 5;
+    }
+    let mut out = Vec::with_capacity(children as usize);
+    for l in levels.iter().rev() {
+        out.push(0xFF);
+        out.extend_from_slice(&(0x8000_0000u32 | l).to_be_bytes());
+    }
+    out.append(&mut table);
+    f.path_table.data = out;
+    f.build().map_err(e2s)
 }
 
 fn tvfs_blte(out: &mut Vec<(String, Vec<u8>)>) {
